@@ -134,6 +134,8 @@ def index_check(bt, root, n, par=100.0):
             out.append(("index-start", "index starts at %r, not %r" % (d["price"][0], par)))
     for i in range(1, n):
         v0, v1, f, p0, p1 = d["val"][i - 1], d["val"][i], d["flows"][i], d["price"][i - 1], d["price"][i]
+        if any(x != x for x in (v0, v1, f, p0, p1)):
+            continue      # NaN booked from NaN data (a missing bid/offer quote ...): C10's subject, no recurrence to judge
         if root.fixed_income:
             n0 = d["notl"][i - 1]
             n1 = d["notl"][i]
@@ -364,3 +366,50 @@ def live_total_check(step):
         return [("total-not-conserved:" + op["op"], "total (all cash + positions at the current prices) moved by %r over a %s; injected %r, fees %r, bid/offer %r give %r"
                  % (got, op["op"], inj, b[1] - a[1], b[2] - a[2], want))]
     return []
+
+
+# ------------------------------------------------------------------ end-of-date rows (C01: "the rows recorded for each date equal that end-of-date state")
+import contextlib as _contextlib
+
+
+@_contextlib.contextmanager
+def eod_watch(bt):
+    """At the moment a tree is moved to a new date, the rows recorded for the date it leaves must equal the live state it leaves
+    behind: positions of the securities being marked, cash of every strategy (and values, once nothing is pending).  Observed on
+    every root (a backtest's tree and every shadow copy) at the start of the first `update` to a later date - no reads that would
+    refresh anything.  Yields the list the findings are appended to: (root full name, date left, node, field, recorded, live)."""
+    c = bt.core
+    orig = c.StrategyBase.update
+    found = []
+
+    def rows_vs_live(root):
+        now = root.now
+        try:
+            i = root.data.index.get_loc(now)
+        except Exception:
+            return
+        for n in root.members:
+            if isinstance(n, c.SecurityBase):
+                if n.now != now:
+                    continue      # a flat security that is (legitimately) not being marked
+                pairs = [("position", n._positions.values[i], n._position)]
+            else:
+                if n.now != now:
+                    continue
+                pairs = [("cash", n._cash.values[i], n._capital)]
+            for nm, rec, live in pairs:
+                if rec != live and not (rec != rec and live != live) and abs(rec - live) > 1e-9 * max(1.0, abs(rec), abs(live)):
+                    found.append((root.full_name, str(now), n.full_name, nm, float(rec), float(live)))
+
+    def w(self, date, data=None, inow=None):
+        try:
+            if self.parent is self and not (isinstance(self.now, int) and self.now == 0) and date != self.now and hasattr(self, "data"):
+                rows_vs_live(self)
+        except Exception:
+            pass
+        return orig(self, date, data, inow)
+    c.StrategyBase.update = w
+    try:
+        yield found
+    finally:
+        c.StrategyBase.update = orig
